@@ -2,6 +2,7 @@ import Rare.Proofs.C15NotifyLive
 import Rare.Proofs.C15PollLive
 import Rare.Proofs.C15PollPlain
 import Rare.Proofs.C15Drained
+import Rare.Proofs.C15TailSpec
 import Rare.Model.C15Skeleton
 import Rare.Gen.C15
 /-!
@@ -15,6 +16,12 @@ capacities and `ReadAttempts`; the hypotheses `1 ≤ capacity` / `1 ≤ ReadAtte
 by `decide` on the generated values, so an unbuffered signal channel or `ReadAttempts = 0` in /repo
 breaks these theorems.
 
+Observation point (b) – the batches of `batchers.TailFilesToChan` – is the composition
+`Rare.Model.C15Tail`: the follow reader's delivered stream (of a reachable state of the LTS) read by
+the scanner of C04 (`Rare.C04.Imm`) inside the time-flush batching loop with the batch slice as a
+heap object (`Rare.Model.C15Batch`): `tail_batches_concat`, `batch_contents_stable`,
+`tail_follow_batches…`; `batch_heap_refines_batcher` transfers C01's `batches_concat`.
+
 Assumptions (not proved): the atomicity granularity of the model; inotify reports every Write /
 Remove / Create of the followed name, after the operation, in order, without queue overflow; the
 Go scheduler is fair to the fsnotify goroutine and the reader (liveness statements are of the form
@@ -23,7 +30,7 @@ decreases).  Out of the model: a writer that keeps appending to a file after it 
 truncation, rename (notify.go does not watch `Rename`).
 -/
 namespace Rare.C15
-open Rare.Follow Rare.C15.Spec
+open Rare.Follow Rare.C15.Spec Rare.C04 Rare.C15.Tail Rare.C15.Batch
 
 variable {β : Type}
 
@@ -321,7 +328,240 @@ theorem poll_outside_proviso_skips :
     (.readSome _ ⟨1, 3, 3⟩ 0 1 rfl (by decide) rfl (by decide) (by decide))
   exact ⟨_, hr, rfl, rfl, rfl⟩
 
-/-! ## non-vacuity -/
+/-! ## observation point (b): the batches of `batchers.TailFilesToChan` -/
+
+/-- The loop with the batch slice as a heap object (`Model/C15Batch`) sends exactly the batches of the
+    value-level loop of `Model/Batcher` (for which C01 proves `batches_concat`), when every sent header
+    is read through the heap at the end. -/
+theorem batch_heap_refines_batcher {α : Type} (source : String) (batchSize : Nat) (ls : List (α × Bool)) :
+    (Batch.run source batchSize ls).out.map (Batch.run source batchSize ls).read = Batcher.run batchSize ls :=
+  run_refines source batchSize ls
+
+/-- The batcher goroutine of a followed file ends when the follow reader does: for every stream, every
+    shape of the `Read` calls (incl. failing ones), every timer behaviour, every batch size and every
+    scanner buffer size ≥ 1 the loop reaches "channel closed" – and no `Scan()` of any of its trips
+    runs out of the model's fuel. -/
+theorem tail_terminates (source : String) (bufSize batchSize : Nat) (timer : Nat → Bool) (data : Bytes)
+    (script : List Step) (hb : 1 ≤ bufSize) :
+    (tailToChan source bufSize batchSize timer data script).status = .closed ∧
+    ∀ k, (tailAfter source bufSize batchSize timer data script k).status ≠ .stuck :=
+  ⟨tail_closed source bufSize batchSize timer data script hb,
+   after_nostuck source bufSize batchSize timer data script hb⟩
+
+/-- **tail_batches_concat.**  For every delivered stream `data`, every way the follow reader's `Read`
+    calls cut it up (`script`, incl. a failing `Read`), every behaviour of the flush timer, every batch
+    size (0 included) and scanner buffer size: the batches on the channel – each read through its slice
+    header and each line through its own header, AFTER the loop has ended – are, in order, a partition
+    of the lines (`splitLines`, C04) of the bytes the follow reader delivered, each line paired with
+    its true 1-based line number (`lineNumbers b` pairs line `i` of `b` with `BatchStart + i`); no batch
+    is empty; every batch carries the source name; the delivered bytes are a prefix of `data`, and all
+    of `data` when no `Read` failed. -/
+theorem tail_batches_concat (source : String) (bufSize batchSize : Nat) (timer : Nat → Bool) (data : Bytes)
+    (script : List Step) (hb : 1 ≤ bufSize) :
+    let t := tailToChan source bufSize batchSize timer data script
+    t.numbered.flatMap Batcher.lineNumbers = (splitLines t.imm.delivered).zipIdx 1 ∧
+    t.numbered.flatMap (·.lines) = splitLines t.imm.delivered ∧
+    (∀ b ∈ t.numbered, b.lines ≠ []) ∧
+    (∀ b ∈ t.b.out, b.source = source) ∧
+    t.imm.delivered <+: data ∧
+    ((∀ st ∈ script, st.err = none) → t.imm.delivered = data) := by
+  intro t
+  have hj : J source t := j_after source bufSize batchSize timer data script hb _
+  have hc := tail_closed source bufSize batchSize timer data script hb
+  obtain ⟨h1, h2, _⟩ := closed_spec hj hc
+  exact ⟨h1, flat_of_numbers h1, h2, hj.src, after_delivered source bufSize batchSize timer data script hb _,
+    closed_delivered source bufSize batchSize timer data script hb⟩
+
+
+/-- Non-vacuity of `tail_batches_concat` / `tail_batch_start`: CRLF line, a line completed by a later
+    `Read`, an unterminated last line, scanner buffer of 2 bytes (regrows), a 0-byte `Read`, timer
+    expired at the first line, `batchSize = 2`. -/
+example : (tailToChan "f" 2 2 (fun k => k == 0) [97, 13, 10, 98, 98, 10, 99] [⟨1, none⟩, ⟨0, none⟩, ⟨3, none⟩]).batches =
+    [("f", 1, [[97]]), ("f", 2, [[98, 98], [99]])] := by decide
+
+/-- `batchSize = 0` (not reachable from the CLI, which insists on ≥ 1): every line is its own batch. -/
+example : (tailToChan "f" 2 0 (fun _ => false) [97, 13, 10, 98, 98, 10, 99] []).batches =
+    [("f", 1, [[97]]), ("f", 2, [[98, 98]]), ("f", 3, [[99]])] := by decide
+
+/-- `BatchStart` is the true line number of the batch's first line: one more than the number of lines
+    in all earlier batches. -/
+theorem tail_batch_start (source : String) (bufSize batchSize : Nat) (timer : Nat → Bool) (data : Bytes)
+    (script : List Step) (hb : 1 ≤ bufSize) (pre post : List (Batcher.Batch Bytes)) (b : Batcher.Batch Bytes)
+    (h : (tailToChan source bufSize batchSize timer data script).numbered = pre ++ b :: post) :
+    b.start = 1 + (pre.flatMap (·.lines)).length := by
+  obtain ⟨h1, _, h2, _⟩ := tail_batches_concat source bufSize batchSize timer data script hb
+  exact numbers_start h1 pre post b h (h2 b (by rw [h]; simp))
+
+/-- **batch_contents_stable.**  A batch, once sent, is never modified by later scanning: at every point
+    `k` of the loop and after any number `j` of further trips (more `Read`s into the scanner's buffer,
+    buffer regrowth, more `append`s to the batch slice, more flushes, the final flush),
+    * the channel has only grown,
+    * every batch that was on it reads – through its slice header into the batch heap and through each
+      line's header into the scanner's buffers – exactly as it read at point `k`,
+    * and that is what was recorded at the moment it was sent (`sentAt`). -/
+theorem batch_contents_stable (source : String) (bufSize batchSize : Nat) (timer : Nat → Bool) (data : Bytes)
+    (script : List Step) (hb : 1 ≤ bufSize) (k j : Nat) :
+    let sk := tailAfter source bufSize batchSize timer data script k
+    let sj := tailAfter source bufSize batchSize timer data script (k + j)
+    sk.b.out <+: sj.b.out ∧
+    (∀ x ∈ sk.b.out, sj.readBatch x.batch = sk.readBatch x.batch) ∧
+    sk.sentAt = sk.b.out.map (fun x => sk.readBatch x.batch) ∧
+    sj.sentAt = sj.b.out.map (fun x => sj.readBatch x.batch) := by
+  intro sk sj
+  obtain ⟨h1, h2⟩ := after_stable source bufSize batchSize timer data script hb k j
+  exact ⟨h1, h2, (j_after source bufSize batchSize timer data script hb k).sent,
+    (j_after source bufSize batchSize timer data script hb (k + j)).sent⟩
+
+/-- In particular the consumer that looks at a batch only after everything has ended (late
+    consumption) sees what was sent: the batches sent by trip `k` are a prefix of the final batches. -/
+theorem batches_sent_are_final_prefix (source : String) (bufSize batchSize : Nat) (timer : Nat → Bool)
+    (data : Bytes) (script : List Step) (hb : 1 ≤ bufSize) (k : Nat) :
+    (tailAfter source bufSize batchSize timer data script k).numbered <+:
+      (tailToChan source bufSize batchSize timer data script).numbered := by
+  -- the final state is `tailAfter (k + j)` for a suitable `j`
+  have hfin : ∃ j, tailAfter source bufSize batchSize timer data script (k + j) =
+      tailToChan source bufSize batchSize timer data script := by
+    by_cases hk : k ≤ budget data script
+    · exact ⟨budget data script - k, by rw [Nat.add_sub_cancel' hk]; rfl⟩
+    · exact ⟨0, after_closed_fix source bufSize batchSize timer data script hb k (by omega)⟩
+  obtain ⟨j, hj⟩ := hfin
+  obtain ⟨h1, h2⟩ := after_stable source bufSize batchSize timer data script hb k j
+  rw [hj] at h1 h2
+  obtain ⟨t, ht⟩ := h1
+  refine ⟨t.map fun b => ⟨(tailToChan source bufSize batchSize timer data script).readBatch b.batch, b.start⟩, ?_⟩
+  simp only [TSt.numbered]
+  rw [← ht, List.map_append]
+  congr 1
+  apply List.map_congr_left
+  intro x hx
+  rw [h2 x hx]
+
+/-- While the follow reader is still following (any point `k` of the loop): what has been sent plus
+    what is waiting in `batch` is a numbered partition of the lines scanned so far, no sent batch is
+    empty, and fewer than `batchSize` lines are waiting (they are sent when the next line arrives or
+    the stream ends – there is no timer goroutine). -/
+theorem tail_sent_so_far (source : String) (bufSize batchSize : Nat) (timer : Nat → Bool) (data : Bytes)
+    (script : List Step) (hb : 1 ≤ bufSize) (k : Nat)
+    (hrun : (tailAfter source bufSize batchSize timer data script k).status = .running) :
+    let s := tailAfter source bufSize batchSize timer data script k
+    s.numbered.flatMap Batcher.lineNumbers ++ s.pending.zipIdx s.b.start = (s.toks.map (·.2)).zipIdx 1 ∧
+    (∀ b ∈ s.numbered, b.lines ≠ []) ∧ s.b.start + s.pending.length = 1 + s.toks.length :=
+  running_spec (j_after source bufSize batchSize timer data script hb k) (by rw [hrun]; decide)
+
+
+/-- Non-vacuity of `tail_sent_so_far` / `batch_contents_stable`: after two trips the loop is still
+    running, one batch is on the channel and one line is waiting (it stays there until the next line
+    arrives); the batch reads the same after the remaining trips. -/
+example : (tailAfter "f" 2 3 (fun k => k == 0) [97, 13, 10, 98, 98, 10, 99] [] 2).status = .running ∧
+    (tailAfter "f" 2 3 (fun k => k == 0) [97, 13, 10, 98, 98, 10, 99] [] 2).batches = [("f", 1, [[97]])] ∧
+    (tailAfter "f" 2 3 (fun k => k == 0) [97, 13, 10, 98, 98, 10, 99] [] 2).pending = [[98, 98]] ∧
+    (tailAfter "f" 2 3 (fun k => k == 0) [97, 13, 10, 98, 98, 10, 99] [] (2 + 5)).sentAt = [[[97]], [[98, 98], [99]]] := by
+  decide
+
+/-! ### composition with the follow reader -/
+
+/-- **Notify follow → batches.**  In every reachable state of the notify LTS while the file stays in
+    place (any history of appends, any interleaving with the fsnotify goroutine and the reader,
+    start-of-file or `--tail`, with or without re-open), if the stream ends there, the batches on the
+    channel are the numbered lines of exactly the bytes of the file between the start position and
+    the reader's offset – for every timer behaviour, batch size and `Read` chunking. -/
+theorem tail_follow_batches (c0 : Bytes) (tail reopen : Bool) {s : NSt UInt8}
+    (hr : NReach (srcN reopen) (ninit (some c0) tail) s) (hrm : s.removes = 0)
+    (source : String) (bufSize batchSize : Nat) (timer : Nat → Bool) (script : List Step) (hb : 1 ≤ bufSize)
+    (hs : ∀ st ∈ script, st.err = none) :
+    ∃ pos, s.f = some ⟨0, start0 (some c0) tail, pos⟩ ∧ pos ≤ (s.fs.content 0).length ∧
+      let t := tailToChan source bufSize batchSize timer s.delivered script
+      t.numbered.flatMap Batcher.lineNumbers =
+        (splitLines (extract (s.fs.content 0) (start0 (some c0) tail) pos)).zipIdx 1 ∧
+      (∀ b ∈ t.numbered, b.lines ≠ []) := by
+  obtain ⟨pos, hf, _, hle, hd⟩ := delivered_is_prefix c0 tail reopen hr hrm
+  refine ⟨pos, hf, hle, ?_⟩
+  obtain ⟨h1, _, h2, _, _, h3⟩ := tail_batches_concat source bufSize batchSize timer s.delivered script hb
+  intro t
+  have : t.imm.delivered = s.delivered := h3 hs
+  refine ⟨?_, h2⟩
+  rw [← hd, ← this]; exact h1
+
+/-- …and once the reader has caught up (nothing unread), of ALL the bytes appended after the start
+    position: every appended line exactly once, in order, with its true number. -/
+theorem tail_follow_batches_caught_up (c0 : Bytes) (tail reopen : Bool) {s : NSt UInt8}
+    (hr : NReach (srcN reopen) (ninit (some c0) tail) s) (hrm : s.removes = 0)
+    (hcu : ∀ h, s.f = some h → unread s.fs h = [])
+    (source : String) (bufSize batchSize : Nat) (timer : Nat → Bool) (script : List Step) (hb : 1 ≤ bufSize)
+    (hs : ∀ st ∈ script, st.err = none) :
+    (tailToChan source bufSize batchSize timer s.delivered script).numbered.flatMap Batcher.lineNumbers =
+      (splitLines ((s.fs.content 0).drop (start0 (some c0) tail))).zipIdx 1 := by
+  obtain ⟨pos, hf, hle, h1, _⟩ := tail_follow_batches c0 tail reopen hr hrm source bufSize batchSize timer script hb hs
+  have hu := hcu _ hf
+  simp only [unread, List.drop_eq_nil_iff] at hu
+  have hp : pos = (s.fs.content 0).length := by omega
+  rw [h1, hp]
+  simp only [extract]
+  rw [List.take_of_length_le (by simp)]
+
+
+/-- Non-vacuity of `tail_follow_batches(_caught_up)`: `--tail` on a file holding `x\n`, `a\nb` appended
+    and read in one `Read`: the batches are the lines of exactly the appended bytes. -/
+example : ∃ s : NSt UInt8, NReach (srcN false) (ninit (some [120, 10]) true) s ∧ s.removes = 0 ∧
+    (∀ h, s.f = some h → unread s.fs h = []) ∧
+    (tailToChan "f" 4 10 (fun _ => false) s.delivered []).batches = [("f", 1, [[97], [98]])] := by
+  have hr : NReach (srcN false) (ninit (some [(120 : UInt8), 10]) true) _ :=
+    .step (.step (.step (.step (.step (.refl (s0 := ninit (some [(120 : UInt8), 10]) true))
+    (.readEmpty _ ⟨0, 2, 2⟩ rfl rfl rfl)) (.append _ 0 [97, 10, 98] rfl (by decide)))
+    (.dispatch _ .write [] rfl)) (.recvW _ rfl (by decide)))
+    (.readSome _ ⟨0, 2, 2⟩ 3 rfl rfl (by decide) (by decide))
+  refine ⟨_, hr, rfl, ?_, by decide⟩
+  intro h hf
+  cases hf
+  decide
+
+/-- **Polling follow → batches.**  Same statement for the polling reader. -/
+theorem tail_follow_batches_poll (c0 : Bytes) (tail reopen : Bool) {s : PSt UInt8}
+    (hr : PReach (srcP reopen) (pinit (some c0) tail) s) (hrm : s.removes = 0)
+    (source : String) (bufSize batchSize : Nat) (timer : Nat → Bool) (script : List Step) (hb : 1 ≤ bufSize)
+    (hs : ∀ st ∈ script, st.err = none) :
+    s.readBytes ≤ (s.fs.content 0).length ∧
+      let t := tailToChan source bufSize batchSize timer s.delivered script
+      t.numbered.flatMap Batcher.lineNumbers =
+        (splitLines (extract (s.fs.content 0) (start0 (some c0) tail) s.readBytes)).zipIdx 1 ∧
+      (∀ b ∈ t.numbered, b.lines ≠ []) := by
+  obtain ⟨_, _, hle, hd⟩ := delivered_is_prefix_poll c0 tail reopen hr hrm
+  refine ⟨hle, ?_⟩
+  obtain ⟨h1, _, h2, _, _, h3⟩ := tail_batches_concat source bufSize batchSize timer s.delivered script hb
+  intro t
+  have : t.imm.delivered = s.delivered := h3 hs
+  refine ⟨?_, h2⟩
+  rw [← hd, ← this]; exact h1
+
+/-- Across removals and re-creations (re-open follow, any history): the batches are the numbered lines
+    of the concatenation of one segment per file that was opened (`delivered_is_segments`). -/
+theorem tail_follow_batches_segments (c0 : Option Bytes) (tail reopen : Bool) {s : NSt UInt8}
+    (hr : NReach (srcN reopen) (ninit c0 tail) s)
+    (source : String) (bufSize batchSize : Nat) (timer : Nat → Bool) (script : List Step) (hb : 1 ≤ bufSize)
+    (hs : ∀ st ∈ script, st.err = none) :
+    (tailToChan source bufSize batchSize timer s.delivered script).numbered.flatMap Batcher.lineNumbers =
+      (splitLines (segments s.fs.content (s.hist ++ s.f.toList))).zipIdx 1 := by
+  obtain ⟨h1, _, _, _, _, h3⟩ := tail_batches_concat source bufSize batchSize timer s.delivered script hb
+  rw [← (delivered_is_segments c0 tail reopen hr).1, h1, h3 hs]
+
+/-! ### sensitivity: the aliasing the heap model is there to exclude -/
+
+/-- If the loop kept the backing array after a timer-forced flush of a short batch (`batch = batch[:0]`,
+    NOT what the code does – `Batch.stepSeeded`), stability would fail: lines 1, 2, 3 with the timer
+    expired at lines 1 and 3 and `batchSize = 5` are sent as `[1]`, `[2,3]`, and that is what the real
+    loop's batches read as afterwards; with the re-used array the first batch reads as `[2]`
+    afterwards – the consumer sees 2, 2, 3. -/
+theorem batch_reuse_breaks_stability :
+    let ls : List (Nat × Bool) := [(1, true), (2, false), (3, true)]
+    let real := ls.foldl (Batch.step "f" 5) (St.init 5)
+    let seeded := ls.foldl (Batch.stepSeeded "f" 5) (St.init 5)
+    real.out.map (fun b => (real.read b).lines) = [[1], [2, 3]] ∧
+    seeded.out.map (fun b => (seeded.read b).lines) = [[2], [2, 3]] ∧
+    seeded.out.map (·.start) = [1, 2] := by
+  decide
+
+
+/-! ## non-vacuity (observation point (a)) -/
 
 /-- A rotation handled in the order that used to lose the wake-up (create signal received before the
     delete signal): `[1]` delivered, file removed, new file `[2,3]`; the reader takes the write signal
